@@ -378,6 +378,10 @@ def run(prog: Program, col: Collector, tier: str, refs: Optional[Refs] = None, c
                 c2 = conds + [(t, p_)]
                 if len(body) == 1 and isinstance(body[0], ast.If):
                     walk_chain(body[0], c2)
+                elif len(body) > 1 and isinstance(body[0], ast.If) and not body[0].orelse and body[0].body \
+                        and isinstance(body[0].body[-1], (ast.Raise, ast.Return, ast.Continue, ast.Break)):
+                    # early exit followed by the rest of the block = if / else
+                    walk_chain(ast.If(test=body[0].test, body=body[0].body, orelse=list(body[1:])), c2)
                 else:
                     leaves.append((c2, body))
 
